@@ -164,6 +164,37 @@ def small_scope_pairs(binpath, res):
         res.distinct.add(common.h8(["pair", t, p]))
 
 
+def length_sweep(binpath, res):
+    """every type length 0..200 (ASCII, and ending in a two-byte character) x payload lengths at the decimal digit
+    boundaries (0, 9, 10, 99, 100, 999, 1000), plus a few long payloads: the size of the header never matters"""
+    pairs = []
+    for n in range(0, 201):
+        for tp in {"t" * n, ("t" * (n - 1) + "é") if n else ""}:
+            for pl in (0, 9, 10, 99, 100, 999, 1000):
+                pairs.append([tp, (b"p" * pl).hex()])
+    for n in (0, 1, 49, 50, 51, 52, 63, 64, 65, 128, 200):
+        for pl in (9999, 10000, 65535, 65536, 100000):
+            pairs.append(["t" * n, (bytes([0x30 + (pl % 10)]) * pl).hex()])
+    # two types that differ only in their last character, same payload: distinct packings
+    for n in (40, 50, 54, 60, 64, 70, 100, 150):
+        pairs.append(["t" * n + "A", b"same".hex()])
+        pairs.append(["t" * n + "B", b"same".hex()])
+    B = 500
+    cases = [{"op": "pae", "packs": pairs[i:i + B], "unpacks": []} for i in range(0, len(pairs), B)]
+    obs = common.run_sharded(binpath, cases, keys=False)
+    seen = {}
+    for c, o in zip(cases, obs):
+        if "packs" not in o:
+            res.inconclusive.append(f"executor failure: {str(o)[:300]}")
+            return
+        for (t, p), po in zip(c["packs"], o["packs"]):
+            judge_pack(t, p, po, res, seen)
+    res.evaluations += len(pairs)
+    res.classes["length_sweep_pairs"] += len(pairs)
+    for t, p in pairs[::37]:
+        res.distinct.add(common.h8(["pair", t, p[:64]]))
+
+
 def enum_decode(binpath, res, maxlen):
     alphabet = [0x20, 0x30, 0x31, 0x32, 0x39, 0x61, 0xFF]
     # split the space by the first symbol to use several processes
@@ -195,17 +226,19 @@ def main(ctx):
     for p in common.pmap(shard_random, [(ctx.bin, ctx.seed, s, n) for s in range(common.NPROC)]):
         res.merge(p)
     small_scope_pairs(ctx.bin, res)
+    length_sweep(ctx.bin, res)
     enum_decode(ctx.bin, res, 7 if not ctx.thorough else 8)
     res.extras["exhaustive_subspaces"] = [
         "all (type,payload) with type in {D,space,0,1,é}^<=3 and payload in {D,space,0,1,0xC3,0xA9}^<=3: "
         "round trip + injectivity (all pairs compared through a dictionary)",
-        "every byte string over {space,0,1,2,9,a,0xFF} up to the stated length appended to 'DSSEv1 ': decode outcome"]
+        "every byte string over {space,0,1,2,9,a,0xFF} up to the stated length appended to 'DSSEv1 ': decode outcome",
+        "type lengths 0..200 x payload lengths at the decimal digit boundaries"]
     return common.finish(
         PROP, ctx.tier, ctx.seed, res, t0=ctx.t0,
         rule="random (type,payload) pairs incl. empty, framing characters, multi-byte types, frame-looking types; "
              "random decoder inputs with huge/overflowing/signed/malformed length fields; complete small scopes; "
              "non-trivial = pair with a non-empty component or any decoder input; distinct by SHA-256",
         assumptions=["the DSSE v1 PAE definition as transliterated in ref_pack()"],
-        required=["random_pair", "random_frame:ok", "random_frame:err", "small_scope_pairs", "enum_decode:ok",
+        required=["random_pair", "random_frame:ok", "random_frame:err", "small_scope_pairs", "length_sweep_pairs", "enum_decode:ok",
                   "enum_decode:err"],
         min_evals=50000)
